@@ -240,8 +240,10 @@ def run(rep):
                'scipy.stats.linregress scaling lemma: linregress(x, k y) = (k slope, k intercept, r, p, k stderr)',
                'material basis/unit may stay the stored one (results are reported per stored material unit)')
     rep.trust('CPython 3.12', 'z3 5.1.0', 'pgv.sx', 'real pandas/scipy for the recorded run')
-    jobs = [('proto', None)] + [('scale', (m, n)) for m in ('bet', 'langmuir', 'tplot') for n in (3, 4)]
+    jobs = [('scale', (m, n)) for m in ('bet', 'langmuir', 'tplot') for n in (3, 4)]
     obs, crashes = par.pmap(_dispatch, jobs)
+    # the recorded protocol run uses the real, unpatched modules: in this process, not in a worker that installed stubs
+    obs = protocol_block(None) + obs
     rep.extend(obs)
     if crashes:
         rep.crash = crashes[0]
